@@ -15,6 +15,12 @@ EQUALITY, so no collision assumption is needed.  `β` is the type of byte string
 The adversary (registry, mirror, http cache) chooses the bytes of the TOC and the bytes every
 compressed read yields (`none` = the read / the decoder failed).
 
+`metadata.Reader.Clone` (used by `Cache(WithReader(sr))`, i.e. `layer.backgroundFetch`): the db store's
+clone keeps the TOC stored at open time; the memory store's clone RE-PARSES the TOC from `sr` and
+nobody compares its digest.  Both are `prefetchBeginWith c reply dg`: `dg` is the chunk digest the
+clone hands to `readAndCache` (`= toc.dig c` for a faithful clone, the adversary's choice otherwise).
+The model follows the CURRENT code; `FaithfulRun` singles out the histories of faithful clones.
+
 Atomicity premises (recorded as assumptions of the check):
  * `VerifyTOC` sets `prohibitVerifyFailure` and loads `lastVerifyErr` while holding the write side of
    `prohibitVerifyFailureMu`; `readAndCache` tests `prohibitVerifyFailure` and stores `lastVerifyErr`
